@@ -9,12 +9,14 @@ VARIABLES i, bad
 vars == <<i, bad>>
 Same(a, b) == ToJson(a) = ToJson(b)
 
+RECURSIVE DotName(_, _)
+DotName(p, n) == IF n = Len(p) THEN p[n] ELSE p[n] \o "." \o DotName(p, n + 1)
 FieldsSame(exp, obs) ==      \* exp = <<Fields, FieldsNotLocal>> with lower/upper sets; obs = <<<<"ok", names>>, ...>>
   \A k \in 1..2 :
      IF exp[k][1] = "refuse" THEN obs[k][1] = "refuse"
      ELSE /\ obs[k][1] = "ok"
           /\ LET got == { obs[k][2][j] : j \in 1..Len(obs[k][2]) }
-                 Name(p) == IF Len(p) = 1 THEN p[1] ELSE p[1] \o "." \o p[2]
+                 Name(p) == DotName(p, 1)
              IN /\ { Name(p) : p \in exp[k][2] } \subseteq got
                 /\ got \subseteq { Name(p) : p \in exp[k][3] }
 EventOK(e) ==
